@@ -964,8 +964,8 @@ package gmars
 //@   ensures [C03] result.1 == nil && c.config.Mode != ICWS88 && in.bmode == "" && len(in.b) != 0 ==> result.0.BMode == DIRECT
 // the lone-operand rule: DAT x == DAT #0, x ; any other opcode keeps x in the A-field with $0 in B
 // both fields are the expression values reduced into [0, M)
-//@   ensures [C07] result.1 == nil && len(in.b) != 0 ==> result.0.A == modM(exprVal(aExpr), c.m) && result.0.B == modM(exprVal(bExpr), c.m)
-//@   ensures [C07] result.1 == nil && len(in.b) == 0 ==> ite(result.0.Op == DAT, result.0.B, result.0.A) == modM(exprVal(aExpr), c.m)
+//@   ensures [C07][C03] result.1 == nil && len(in.b) != 0 ==> result.0.A == modM(exprVal(aExpr), c.m) && result.0.B == modM(exprVal(bExpr), c.m)
+//@   ensures [C07][C03] result.1 == nil && len(in.b) == 0 ==> ite(result.0.Op == DAT, result.0.B, result.0.A) == modM(exprVal(aExpr), c.m)
 //@   ensures [C03] result.1 == nil && len(in.b) == 0 && result.0.Op == DAT ==> result.0.AMode == IMMEDIATE && result.0.A == 0
 //@   ensures [C03] result.1 == nil && len(in.b) == 0 && result.0.Op != DAT ==> result.0.B == 0
 
@@ -1294,7 +1294,11 @@ package gmars
 //@     invariant scannerOK(p) && p.symbols == old(p.symbols) && 0 - 1 <= rangeindex && rangeindex < len(p.labelBuf)
 
 // FOR expander state functions (sends are skips, see above)
-//@ pure forOK(f *forExpander) = f != nil && f.lex != nil
+// (the line labels of the block being collected must not share their backing array with the label buffer,
+// which the body's state functions keep appending to)
+//@ pure forOK(f *forExpander) = f != nil && f.lex != nil && (len(f.forLineLabels) > 0 ==> arr(f.forLineLabels) != arr(f.labelBuf))
+//@ pure forBlockSame(f *forExpander) = f.forCountLabel == old(f.forCountLabel) && f.forCount == old(f.forCount) && f.forLineLabels == old(f.forLineLabels)
+//@      && (forall k :: 0 <= k && k < len(f.forLineLabels) ==> f.forLineLabels[k] == old(f.forLineLabels[k]))
 //@ func (*forExpander).next
 //@   panics [C05]
 //@   requires forOK(p)
@@ -1326,15 +1330,19 @@ package gmars
 //@   modifies f.*, f.labelBuf[*], f.exprBuf[*], f.forContent[*], chan f.tokens
 //@   ensures forOK(f)
 //@ func forInnerLine
-//@   panics [C05]
+//@   panics [C05][C08]
 //@   requires forOK(f)
 //@   modifies f.*, f.labelBuf[*], f.exprBuf[*], f.forContent[*], chan f.tokens
 //@   ensures forOK(f)
+// the block header (counter, count, line labels) is not disturbed while the body is collected
+//@   ensures [C08] forBlockSame(f)
 //@ func forInnerEmitConsumeLine
-//@   panics [C05]
+//@   panics [C05][C08]
 //@   requires forOK(f)
 //@   modifies f.*, f.labelBuf[*], f.exprBuf[*], f.forContent[*], chan f.tokens
 //@   ensures forOK(f)
+// the block header (counter, count, line labels) is not disturbed while the body is collected
+//@   ensures [C08] forBlockSame(f)
 //@ func forWriteLabelsEmitConsumeLine
 //@   panics [C05]
 //@   requires forOK(f)
@@ -1344,17 +1352,21 @@ package gmars
 //@     invariant forOK(f) && 0 - 1 <= rangeindex && rangeindex < len(f.labelBuf)
 //@     decreases len(f.labelBuf) - rangeindex
 //@ func forInnerEmitLabels
-//@   panics [C05]
+//@   panics [C05][C08]
 //@   requires forOK(f)
 //@   modifies f.*, f.labelBuf[*], f.exprBuf[*], f.forContent[*], chan f.tokens
 //@   ensures forOK(f)
+// the block header (counter, count, line labels) is not disturbed while the body is collected
+//@   ensures [C08] forBlockSame(f)
 //@   loop 1
 //@     invariant forOK(f) && 0 - 1 <= rangeindex && rangeindex < len(f.labelBuf) && f.labelBuf == old(f.labelBuf) && (fresh(arr(f.forContent)) || arr(f.forContent) == old(arr(f.forContent)))
 //@ func forInnerLabels
-//@   panics [C05]
+//@   panics [C05][C08]
 //@   requires forOK(f)
 //@   modifies f.*, f.labelBuf[*], f.exprBuf[*], f.forContent[*], chan f.tokens
 //@   ensures forOK(f)
+// the block header (counter, count, line labels) is not disturbed while the body is collected
+//@   ensures [C08] forBlockSame(f)
 //@   loop 1
 //@     invariant forOK(f) && 0 - 1 <= rangeindex && rangeindex < len(f.forLineLabelsToWrite) && f.forLineLabelsToWrite == old(f.forLineLabelsToWrite)
 //@ func forEmitConsumeStream
@@ -1397,7 +1409,8 @@ package gmars
 //@     invariant forOK(f) && 0 - 1 <= rangeindex && rangeindex < len(f.exprBuf) && f.exprBuf == old(f.exprBuf) && fresh(arr(expr))
 //@     decreases len(f.exprBuf) - rangeindex
 //@   loop 2
-//@     invariant forOK(f) && 0 - 1 <= rangeindex && rangeindex < len(f.forLineLabels) && len(f.forLineLabelsToWrite) == len(f.forLineLabels) && fresh(arr(f.forLineLabelsToWrite))
+//@     invariant f != nil && f.lex != nil && 0 - 1 <= rangeindex && rangeindex < len(f.forLineLabels) && len(f.forLineLabelsToWrite) == len(f.forLineLabels) && fresh(arr(f.forLineLabelsToWrite))
+//@     invariant len(f.forLineLabels) > 0 ==> arr(f.forLineLabels) == old(arr(f.labelBuf))
 //@     invariant [C08] off(f.forLineLabelsToWrite) == 0 && (forall k :: 0 <= k && k <= rangeindex ==> f.forLineLabelsToWrite[k] == sprintf("__for_%s_%s", zeros()[0 := box_string(f.forCountLabel)][1 := box_string(f.forLineLabels[k])], 2))
 //@     decreases len(f.forLineLabels) - rangeindex
 // what one copy of the FOR body emits for a body token: the counter becomes the number i, a line
